@@ -109,23 +109,28 @@ Definition diag (c : case) : option N :=
       then None else Some 1000%N
   end.
 
-(* steps at which the implementation's environment broke the assumption of the theorems ([step_ok]) *)
-Fixpoint breaks_from (st : state) (l : list cstep) : N :=
+(* steps at which the implementation's environment broke the assumption of the theorems ([step_ok]):
+   (breaks of the query-index clause at Subscribe steps, breaks of the other clauses) *)
+Fixpoint breaks_from (st : state) (l : list cstep) : N * N :=
   match l with
-  | [] => 0
+  | [] => (0, 0)
   | s :: r =>
       match cs_label s with
       | None => breaks_from st r
-      | Some lb => (if step_ok st lb then 0 else 1) + breaks_from (fst (step st lb)) r
+      | Some lb =>
+          let '(a, b) := breaks_from (fst (step st lb)) r in
+          if step_ok st lb then (a, b)
+          else match lb with LSubscribe _ _ _ _ _ => (a + 1, b) | _ => (a, b + 1) end
       end
   end%N.
 
 (* per case: 0 when model and implementation agree, else 1 + the index of the first disagreeing step
-   (1001 = the final counters); the number of assumption breaks *)
-Definition report (c : case) : N * N :=
-  (match diag c with None => 0 | Some n => n + 1 end, breaks_from (init (cc_cache c)) (cc_steps c))%N.
+   (1001 = the final counters); the numbers of assumption breaks *)
+Definition report (c : case) : N * N * N :=
+  let '(a, b) := breaks_from (init (cc_cache c)) (cc_steps c) in
+  (match diag c with None => 0 | Some n => n + 1 end, a, b)%N.
 
-Definition reports (cs : list case) : list (N * N) := map report cs.
+Definition reports (cs : list case) : list (N * N * N) := map report cs.
 
 Definition check (c : case) : bool := match diag c with None => true | Some _ => false end.
 Definition mismatches (cs : list case) : list N := failing check cs.
